@@ -1,7 +1,11 @@
 package c13
 
 import (
+	"strings"
+	"sync"
 	"testing"
+	"testing/synctest"
+	"time"
 
 	"github.com/libp2p/go-libp2p/core/peer"
 	ma "github.com/multiformats/go-multiaddr"
@@ -66,5 +70,47 @@ func TestAddressTemplates(t *testing.T) {
 				}
 			}
 		}
+	}
+}
+
+// TestWatcherSelfCheck is a self-check of the harness, not of the property: the watcher that
+// recognises a frozen bubble by the states of its goroutines (watch_test.go) depends on the
+// format of the runtime's goroutine dump. A bubble with a goroutine parked on a lock nobody
+// will release must be recognised; bubbles that finish, or that only wait for virtual time
+// and channels, must not.
+func TestWatcherSelfCheck(t *testing.T) {
+	hx.Shard0(t)
+	o, frozen := runWatched(t, func() {
+		var mu sync.RWMutex
+		ch := make(chan struct{})
+		go func() {
+			mu.Lock()
+			<-ch // holds the lock for a while (durably blocked, resumes)
+			mu.Unlock()
+		}()
+		go func() {
+			time.Sleep(time.Hour)
+			close(ch)
+		}()
+		synctest.Wait()
+		time.Sleep(2 * time.Hour)
+		mu.RLock() // free again
+		mu.RUnlock()
+	})
+	if frozen != "" || o.panicked || o.outer != nil {
+		t.Fatalf("a bubble that finishes was not run to its end: frozen=%q outcome=%+v", frozen, o)
+	}
+	_, frozen = runWatched(t, func() {
+		var mu sync.RWMutex
+		mu.RLock() // never released
+		go func() {
+			mu.Lock()
+			mu.Unlock()
+		}()
+		time.Sleep(time.Minute)
+		t.Errorf("virtual time passed although a goroutine of the bubble waits for a lock")
+	})
+	if frozen == "" || !strings.Contains(frozen, "sync.RWMutex.Lock") {
+		t.Fatalf("a bubble in which a goroutine waits for a lock that is never released was not recognised as frozen: %q", frozen)
 	}
 }
